@@ -650,6 +650,32 @@ def run(ctx):
     t0 = time.time()
     cases, pairs, dist = build_cases(ctx, n_base, cap)
     C.log("[c09] generated %d structures, %d pairs in %.1fs" % (len(cases), len(pairs), time.time() - t0))
+    # the first-principles float oracle that the C17/C18 runners use (harness/lib/dim_oracle.py) against the exact integer oracle
+    # (itself cross-checked with dim_spec inside Coq on every case): every structure on which the float oracle is decided
+    from lib import dim_oracle
+    t0 = time.time()
+    fo = {"compared": 0, "undecided": 0, "disagree": []}
+    for c in cases[: (1200 if quick else 6000)]:
+        o = c["_orc"]
+        if o["info"]["near_tie"] or o["mismatch"]:
+            continue
+        try:
+            f = dim_oracle.dimensionality(c["positions"], c["cell"], c["pbc"], radii_floats(c), float(c["thr"]), tie=1e-9)
+        except Exception as e:  # noqa
+            fo["disagree"].append({"id": c["id"], "error": type(e).__name__ + ": " + str(e)[:100]})
+            continue
+        if not f["decided"]:
+            fo["undecided"] += 1
+            continue
+        fo["compared"] += 1
+        if f["dim"] != o["dim"]:
+            fo["disagree"].append({"id": c["id"], "float_oracle": f, "exact_oracle": o["dim"]})
+    fo["seconds"] = round(time.time() - t0, 1)
+    ctx.coverage["float_oracle_of_C17_vs_exact_oracle"] = dict(fo, disagree=fo["disagree"][:5])
+    if fo["disagree"]:
+        # a defect of the harness, not of the tree under test: the C17/C18 oracle cannot be trusted
+        ctx.violation({"kind": "harness-oracles-disagree", "broken": "harness/lib/dim_oracle.py vs the exact oracle of props/c09.py", "cases": fo["disagree"][:3]},
+                      found_input=False)
     t0 = time.time()
     res, mode = run_impl(cases)
     C.log("[c09] implementation runs %.1fs" % (time.time() - t0))
